@@ -436,6 +436,27 @@ def rule_leader_keeps_leading(ctx: Ctx) -> None:
     ctx.floor("C12-12", 6)
 
 
+def rule_slots_only_by_leader(ctx: Ctx) -> None:
+    """C12-13: a slot is assigned (a command enters the log under this node's ballot) only while the node believes it leads."""
+    prog = ctx.prog
+    n = 0
+    for rel, cname in ((MP, "MultiPaxosNode"), (FP, "FlexiblePaxosNode")):
+        c = prog.cls(rel, cname)
+        for m in c.methods.values():
+            mf = None
+            for k in calls_in(m.node):
+                if path_of(k.func) == "self._assign_slot":
+                    n += 1
+                    mf = mf or ctx.flow(m)
+                    nd = node_of(mf.cfg, k)
+                    ok = mf.holds_at(nd, Fact("truthy", "self._is_leader"))
+                    if not ok and m.name == "_become_leader":
+                        sets = [st for st in walk_stmts(m.node.body) if isinstance(st, ast.Assign) and path_of(st.targets[0]) == "self._is_leader" and isinstance(st.value, ast.Constant) and st.value.value is True]
+                        ok = len(sets) == 1 and not always_before(ctx, m, lambda x: x.ast is sets[0], lambda x: x is nd)
+                    ctx.ob("C12-13", "G1", m, k, ok, f"{cname}.{m.name}: a slot is assigned only while `_is_leader` holds (the `_leader` hint lags behind a hand-over: a deposed leader would assign a slot under the new leader's ballot)")
+    need(n >= 5, f"C12-13: expected >= 5 slot-assignment sites, found {n}")
+
+
 def rule_schema(ctx: Ctx) -> None:
     prog = ctx.prog
     for rel, cname in ((PAX, "PaxosNode"), (MP, "MultiPaxosNode"), (FP, "FlexiblePaxosNode")):
@@ -454,10 +475,12 @@ def run(ctx: Ctx) -> None:
     ctx.guarded(rule_dead_promise_info)
     ctx.guarded(rule_leader_and_lock)
     ctx.guarded(rule_leader_keeps_leading)
+    ctx.guarded(rule_slots_only_by_leader)
     ctx.guarded(rule_schema)
 
 
 MUTANTS = [
+    ("forward-accepted-by-leader-hint", MP, "        if self._is_leader and command is not None:", "        if self._leader == self.name and command is not None:", "C12-13"),
     ("multipaxos-own-tick-demotes", MP, "        if metadata.get(\"self_heartbeat\"):\n            if not self._is_leader:\n                return None\n            return self._send_heartbeat()\n\n        ballot = Ballot(", "        ballot = Ballot(", "C12-12"),
     ("self-count-without-self-accept", PAX, "            self._accepted_value = chosen_value\n            self._phase2_responses[ballot_number] = 1  # count self", "            self._accepted_value = chosen_value\n        self._phase2_responses[ballot_number] = 1  # count self", "C12-6"),
     ("accept-does-not-raise-promise", PAX, "        # Accept\n        self._promised_ballot = ballot\n        self._accepted_ballot = ballot", "        # Accept\n        self._accepted_ballot = ballot", "C12-3"),
